@@ -85,6 +85,11 @@ def build(ctx, rnd, gens):
             step2 = anncases.step_of(b1, rnd, order, dict(base, skip_unrecognised=True) if dot is None else base, must=True)
             step2["must"]["data.unknownext"] = dot is not None
             add(unk, [step2], cls="unrecognised-skipped", dot=dot, position=pos)
+        # a project template that renders everything: holders and contributors with '<', '>', '&' go through unharmed
+        step = anncases.step_of(b1, rnd, names, dict(base, template="full"), must=True)
+        step["req"]["holders"] = ["R&D Team <rd@example.org>"]
+        step["req"]["con"] = ["Bob & Alice <ba@example.org>"]
+        add(good, [step], cls="full-template-with-markup-characters", dot=dot)
         # binary content behind a commentable name among good files: documented to go to a .license sibling, so every
         # file of the invocation is processed and the exit status is 0
         binf = good + [{"name": "blob.py", "kind": "binary", "style_name": "python"}]
